@@ -513,10 +513,34 @@ class Executor:
             else:
                 cp = ord(body)
             return VInt(I(cp), "char")
-        if t.startswith('"') or t.startswith('b"'):
+        if t.startswith('b"') and t.endswith('"'):
+            # byte-string literal: a reference to an array of bytes
+            body = t[2:-1]
+            bs, i = [], 0
+            while i < len(body):
+                c = body[i]
+                if c == "\\":
+                    n = body[i + 1]
+                    if n == "x":
+                        bs.append(int(body[i + 2:i + 4], 16))
+                        i += 4
+                        continue
+                    bs.append(ord({"n": "\n", "t": "\t", "r": "\r", "0": "\0", "\\": "\\", "'": "'", '"': '"'}[n]))
+                    i += 2
+                    continue
+                bs.append(ord(c))
+                i += 1
+            return VRef("val", val=VStruct("[array]", [VInt(I(b), "u8") for b in bs]))
+        if t.startswith('"'):
             return VOpaque(("str", t))
         if "SizedTypeProperties>::" in t:
             return VOpaque(("addr", t))
+        mm = re.fullmatch(r"(?:core::num::<impl )?([iu](?:8|16|32|64|128|size))>?::(MAX|MIN|BITS)", t)
+        if mm:
+            lo, hi = ty_range(mm.group(1))
+            if mm.group(2) == "BITS":
+                return VInt(I(int_info(mm.group(1))[1]), "u32")
+            return VInt(I(hi if mm.group(2) == "MAX" else lo), mm.group(1))
         # named constant
         name = strip_generics(t)
         last = name.split("::")[-1]
@@ -527,6 +551,23 @@ class Executor:
                 same = [(k, v) for k, v in cands if mm.group(0) in k]
                 if same:
                     cands = same
+        if len(cands) > 1 and len(name.split("::")) >= 2:
+            # `Type::CONST`: pick the impl block of that type (impl blocks are mapped to types from the source)
+            tyname = name.split("::")[-2]
+            idx = getattr(self, "impl_index", None) or {}
+            c2 = []
+            for k, v in cands:
+                mi = re.search(r"<impl at [^>]*>", k)
+                if mi and idx.get("#impl:" + mi.group(0)) == tyname:
+                    c2.append((k, v))
+            if c2:
+                cands = c2
+        if len(cands) > 1 and len(name.split("::")) >= 2:
+            # promoted[k] / {constant#k} of a particular function: match the enclosing item's name as well
+            prev = name.split("::")[-2]
+            c2 = [(k, v) for k, v in cands if k.split("::")[-2:-1] == [prev]]
+            if c2:
+                cands = c2
         if len(cands) > 1 and want_ty:
             c2 = [(k, v) for k, v in cands if v[0] == want_ty]
             if c2:
@@ -829,7 +870,13 @@ class Executor:
         if op in ("Rem", "Div"):
             s, _ = int_info(ty)
             if s:
-                raise Unsupported("signed division")
+                # Rust: truncation toward zero (z3's div is Euclidean)
+                ax, ay = z3.If(x < 0, -x, x), z3.If(y < 0, -y, y)
+                q0 = ax / ay
+                q = z3.If((x < 0) != (y < 0), -q0, q0)
+                if op == "Div":
+                    return VInt(self.wrap(q, ty), ty)
+                return VInt(simp(x - q * y), ty)
             # divisor-zero is guarded by a preceding MIR assert; z3's div/mod agree with
             # unsigned machine division for non-negative operands and positive divisor
             return VInt(simp(x % y if op == "Rem" else x / y), ty)
